@@ -114,6 +114,8 @@ def run(prop, tier, seed, replay=None, ck=None, finish=True):
     scen = [('ddc', False, False), ('dd', True, False), ('dc', True, False), ('dd', False, True)]
     if prop == 'C10':
         scen = [('dd', True, False), ('dc', True, False), ('dd', False, True)]
+    if prop == 'C09':
+        scen = [('ddc', False, False), ('dd', True, False), ('dd', False, True)]
     if tier == 'thorough':
         scen += [('ddd', False, False), ('c', True, False), ('dddd', False, False), ('dddc', False, False), ('ddd', True, False), ('ddc', True, False), ('dc', False, True), ('ddd', True, True)]
     ck.cov.setdefault('tlc_configs', [])
@@ -142,12 +144,12 @@ def run(prop, tier, seed, replay=None, ck=None, finish=True):
         ck.cov['tlc_configs'].append('Callback events=%s userClose=%s closeInOnData=%s, classes pruned: %d states, %d transitions, %d cover paths'
                                      % (ev, user, inon, res.distinct, len(edges), len(paths)))
     # liveness on the design: every behaviour settles (no lost hand-off) under weak fairness
-    lv = None if prop == 'C10' else tlc.run('MC_Callback', 'mc.cfg', timeout=600, extra_files={**files('ddd', False, False, True), 'mc.cfg':
+    lv = None if prop in ('C10', 'C09') else tlc.run('MC_Callback', 'mc.cfg', timeout=600, extra_files={**files('ddd', False, False, True), 'mc.cfg':
         files('ddd', False, False, True)['mc.cfg'].replace('SPECIFICATION Spec', 'SPECIFICATION FairSpec').replace('PROPERTIES NothingAfterClose', 'PROPERTIES NothingAfterClose EventuallySettled')})
     if lv is not None:
         ck.cov['liveness_eventually_settled'] = 'holds (%d states)' % lv.distinct if lv.ok else (lv.violation or lv.error or 'timeout')
     # design counterexamples without pruning (classifier not vacuous)
-    if prop != 'C10':
+    if prop not in ('C10', 'C09'):
         un = tlc.run('MC_Callback', 'mc.cfg', timeout=600, extra_files=files('ddc', False, False, False, 'RawNoStranding'))
         ck.cov['design_counterexample_without_pruning'] = '%s kf=%s' % (un.violation, un.trace[-1][1].get('kf') if un.trace else None)
     # witnesses of the known findings
@@ -192,6 +194,7 @@ def run(prop, tier, seed, replay=None, ck=None, finish=True):
     ck.cov['random_interleavings_on_real_code'] = r['random_runs']
     ck.cov['settle_checks'] = r['settle_checks']
     ck.cov['ondata_calls'] = r['ondata_calls']
+    ck.add('callback_ledger_checks', r.get('ledger_checks', 0))
     ck.cov['known_finding_class_executions'] = r['known_hits']
     ck.cov['exhaustive'] = True
     for s in r['samples']:
